@@ -243,7 +243,7 @@ def pumpSup (w : World) : World × List String :=
     | (n', .ok effs) =>
       let w := { w with node := n' }
       let w := effs.foldl (fun (w : World) e => match e with
-        | .link to isP => { w with links := w.links ++ [(to, isP)] }
+        | .link to isP => { w with links := (w.links.filter (·.1 != to)) ++ [(to, isP)] }   -- the member's sender is replaced: the older connection gets nothing more
         | .send to line => { w with linkOut := w.linkOut ++ [(to, line)] }
         | .repl line => { w with replQueue := w.replQueue ++ [line] }) w
       let newK := effs.filterMap fun e => match e with
@@ -255,7 +255,16 @@ def pumpSup (w : World) : World × List String :=
 
 def electionTimeout : Nat := 10
 
-def mayElect (cmd : Bytes) (isPrimary : Bool) : Bool :=
+/-- a replicated command arrives as `rp <op id> <command>` (also nested): the handler runs the inner command in place -/
+def stripRp : Nat → Bytes → Bytes
+  | 0, cmd => cmd
+  | fuel + 1, cmd =>
+    match Bytes.splitn 32 3 cmd with
+    | [w0, _, rest] => if w0 = b!"rp" then stripRp fuel rest else cmd
+    | _ => cmd
+
+def mayElect (cmd0 : Bytes) (isPrimary : Bool) : Bool :=
+  let cmd := stripRp cmd0.length cmd0
   match Bytes.splitAll 32 cmd with
   | w0 :: rest =>
     w0 = b!"join" || w0 = b!"leave" || (w0 = b!"set-primary" && isPrimary) ||
@@ -328,7 +337,8 @@ def step (w : World) (line : String) : World × List String :=
       if w.co && mayElect (unesc a2) n0.isPrimary then
         let cmd := unesc a2
         let (n, r, evs) := ({ n0 with deferElection := true, electionRequested := false } : Node).exec sid cmd
-        let hold := Bytes.startsWith cmd b!"leave" || Bytes.startsWith cmd b!"election"
+        let inner := stripRp cmd.length cmd
+        let hold := Bytes.startsWith inner b!"leave" || Bytes.startsWith inner b!"election"
         let (w, outs) := coStart w n (respStr r) evs hold
         (w, outs ++ dumpNode w.node)
       else
@@ -438,7 +448,10 @@ def step (w : World) (line : String) : World × List String :=
        "# restarted" :: rxl ++ (if w.pump && !w.sup then dumpMeta n m else []) ++ (if w.sup then [] else dumpFs n.fs) ++ dumpNode n)
     | none => ({ w with node := { fresh with fs := w.node.fs }, notices := [] }, ["R PANIC restart"])
   | "PUMP" =>
+    -- `PUMP sup`: the supervisor thread gets to its queue before the replication thread does
+    let (w, outS) := if a1 = b!"sup" && w.sup then pumpSup w else (w, [])
     let (w, out0, xs0) := pumpLoop w
+    let out0 := outS ++ out0
     if w.sup then
       -- loop and supervisor feed each other: both until nothing moves (as the harness does)
       let rec rounds (k : Nat) (w : World) (acc : List String) : World × List String :=
